@@ -31,7 +31,7 @@ LOOP_RUN = ('__CPROVER_assigns(i, task, G.m, G.pops, G.have, G.last_index, TS, W
             '__CPROVER_loop_invariant(i <= self->threadCount_ && task == NULL && !G.have && !TS.mut_.held && G.exec == 0 && G.pops == 0)\n'
             '__CPROVER_decreases(self->threadCount_ - i)')
 SPEC = dict(
-    properties=['C06'],
+    properties=['C06', 'C01'],
     ctx=ts_ctx,
     extracts={
         'iq_head_init': dict(file=IQ, kind='expr', sig=r'Item\* head_ = ([^;]*);'),
